@@ -4,7 +4,7 @@ from __future__ import annotations
 import ast
 from typing import Dict, List, Optional, Set
 
-from .. import AnalysisError
+from .. import AnalysisError, SkipClause
 from ..absint import EvalRaise, EvalReturn, Evaluator, Opaque, Unknown
 from ..program import FuncInfo, ancestors, enclosing_stmt, norm, walk_local
 from . import c02, c12
@@ -407,7 +407,7 @@ def check_objective(ctx) -> None:
     fn = ctx.prog.func("cobra.io.dict", "model_from_dict")
     comps = [n for n in walk_local(fn.node) if isinstance(n, (ast.ListComp, ast.DictComp, ast.GeneratorExp)) and "objective_coefficient" in norm(n) and n.generators and n.generators[0].ifs]
     if not comps:
-        raise AnalysisError("model_from_dict: the selection of objective reactions was not found")
+        raise SkipClause("model_from_dict: the selection of objective reactions is not in a familiar spelling (decided by C11.roundtrip)")
     for comp in comps:
         gen = comp.generators[0]
         var = gen.target.id if isinstance(gen.target, ast.Name) else None
